@@ -280,6 +280,23 @@ class FamWorld:
             return self._make_bar(fam, ev)
         return "skip:unknown"
 
+    def _siblings_before(self, fam, target_seq):
+        if self.prop != "C16":
+            return None
+        return [(s, _freeze(stored_snapshot(s))) for s in fam.seqs() if s is not target_seq]
+
+    def _siblings_unchanged(self, fam, before, opname):
+        """The sequences of one family (bars of a track / composition, e.g. the bars returned by bar splitting) are values
+        too: an operation applied to one of them through the public API must not change another."""
+        if before is None:
+            return
+        for i, (s, snap) in enumerate(before):
+            now = _freeze(stored_snapshot(s))
+            if now != snap:
+                raise _V(Violation("ALIASED", f"{opname} on one sequence of family #{fam.index} ({fam.kind}, {fam.route}) changed "
+                                   f"a sibling sequence of the same family: "
+                                   f"{_snap_diff(((), (snap,)), ((), (now,)))}"[:700], {"route": "sibling:" + fam.route, "op": opname}))
+
     def _after_step(self, actor, opname):
         if self.prop == "C16":
             self._others_unchanged(actor, opname)
@@ -440,6 +457,7 @@ class FamWorld:
         pre_fn = seqops.PRECOND.get(name)
         if pre_fn is not None and not pre_fn(s, args):
             return "skip:precondition"
+        sib = self._siblings_before(fam, s)
         _, e = _call(OPS[name][2], s, args)
         self.stats[f"op/{name}"] += 1
         self.stats[f"reach_kind_x_op/{fam.kind}|{name}"] += 1
@@ -450,6 +468,7 @@ class FamWorld:
             raise seqops_Foreign(f"{name}:{type(e).__name__}")
         self.mutations += 1
         fam.pristine = False
+        self._siblings_unchanged(fam, sib, name)
         self._after_step(fam, name)
         return "ok"
 
@@ -460,6 +479,8 @@ class FamWorld:
         if not bars:
             return "skip:no-bar"
         b = bars[ev.get("target", 0) % len(bars)]
+        sib = self._siblings_before(fam, b.sequence)
+        attrs_before = [(x, (x.time_signature_numerator, x.time_signature_denominator, x.key_signature)) for x in bars if x is not b]
         _, e = _call(b.transpose, ev["by"])
         self.stats["op/Bar.transpose"] += 1
         if e is not None:
@@ -468,6 +489,14 @@ class FamWorld:
             raise seqops_Foreign(f"Bar.transpose:{type(e).__name__}")
         self.mutations += 1
         fam.pristine = False
+        self._siblings_unchanged(fam, sib, "Bar.transpose")
+        if self.prop == "C16":
+            for x, a in attrs_before:
+                if (x.time_signature_numerator, x.time_signature_denominator, x.key_signature) != a:
+                    raise _V(Violation("ALIASED", f"Bar.transpose on one bar of family #{fam.index} ({fam.kind}, {fam.route}) changed "
+                                       f"the attributes of a sibling bar: {a} -> "
+                                       f"{(x.time_signature_numerator, x.time_signature_denominator, x.key_signature)}",
+                                       {"route": "sibling:" + fam.route, "op": "Bar.transpose"}))
         self._after_step(fam, "Bar.transpose")
         return "ok"
 
@@ -536,11 +565,13 @@ class FamWorld:
             r = seqops.resolve_edit(it["cur"], it["view"], ev.get("field", 0), ev.get("value", 0), prev_t, next_t)
             if r is None:
                 return "skip:no-editable-field"
+            sib = self._siblings_before(fam, s)
             setattr(it["cur"], r[0], r[1])
             it["dirty"] = True
             self.mutations += 1
             fam.pristine = False
             self.stats[f"op/{tag}"] += 1
+            self._siblings_unchanged(fam, sib, tag)
             self._after_step(fam, tag)
             return "ok"
         if op in ("iter_close", "iter_throw", "iter_exhaust"):
